@@ -454,8 +454,6 @@ impl<'a> Sim<'a> {
 
                 // Set the current host (see method docs)
                 world.current = Some(addr);
-
-                world.current_host_mut().timer.now(rt.now());
             }
 
             // Pull host's fs/io_uring Arcs (and now) out under a
@@ -475,6 +473,17 @@ impl<'a> Sim<'a> {
                 let host = world.hosts.get(&addr).expect("missing host");
                 Arc::clone(&host.io_uring)
             };
+
+            // Mark the start of the host's turn only now: the timestamp handed
+            // to the fs / io_uring contexts above must be read while no mark is
+            // set. With a mark, `since_epoch()` measures the time since the mark
+            // on tokio's clock, which outside of the host's runtime is the wall
+            // clock.
+            self.world
+                .borrow_mut()
+                .current_host_mut()
+                .timer
+                .now(rt.now());
 
             let is_software_finished = World::enter(&self.world, || {
                 #[cfg(feature = "unstable-fs")]
